@@ -230,7 +230,10 @@ def r04c(ctx):
         n += 1
         for k in keys:
             cid = f"{c.qual}:key-column:{k}"
-            if any(k in reads_of_self(model, c, su.node, depth=3) for su in rules_):
+            # forwarding every parameter through the generic kwargs / operands properties (to rebuild the node) is not
+            # "consulting the key": those members are not followed
+            skip = {id(c.provider(nm).node) for nm in ("kwargs", "_kwargs", "_args") if c.provider(nm) is not None and c.provider(nm).kind != "attr"}
+            if any(k in reads_of_self(model, c, su.node, depth=3, _seen=set(skip)) for su in rules_):
                 ctx.ok(cid, c.loc, "projection rule consults the key parameter")
             elif (c.qual, k) in R04C_EXCEPTIONS:
                 ctx.exempt(cid, c.loc, R04C_EXCEPTIONS[(c.qual, k)])
